@@ -1,17 +1,423 @@
-//! Byzantine authorities of the cluster world (filled in below).
-use crate::ident::Members;
-use crate::net::{Net, TapEvent};
-use crate::scenario::Scenario;
-use crypto::PublicKey;
+//! Byzantine authorities of the cluster world. The adversary owns the keys of the authorities in
+//! `sc.byz`, sees the whole tap (omniscient network adversary) and mixes, per seeded coin:
+//! equivocating proposals to different subsets, votes for every proposal it sees (including
+//! conflicting ones), withholding, proposals extending an old QC justified by a genuine TC built
+//! from tapped timeouts plus its own under-reporting ones, timeouts that under-report its high
+//! QC, QCs assembled from tapped honest votes plus its own, replays of earlier frames, silence.
+//! It never does what needs more than its own stake of forged signatures.
+use crate::cluster::keypair;
+use crate::ident::{self, Members, Round};
+use crate::net::{Net, Phase, TapEvent, TapKind, SVC_CONSENSUS, SVC_MEMPOOL};
+use crate::rng::{mix, unit};
+use crate::scenario::{AdvCfg, Scenario};
+use consensus::{Block, ConsensusMessage, Timeout, Vote, QC, TC};
+use crypto::{Digest, PublicKey, SecretKey, Signature};
+use std::collections::{BTreeMap, HashMap, HashSet};
 
 pub struct Adversary {
-    _net: Net,
+    net: Net,
+    cfg: AdvCfg,
+    seed: u64,
+    members: Members,
+    names: Vec<PublicKey>,
+    byz: Vec<usize>,
+    honest: Vec<usize>,
+    secrets: HashMap<usize, SecretKey>,
+    blocks: HashMap<Digest, Block>,
+    qcs: BTreeMap<Round, QC>,
+    tcs: BTreeMap<Round, TC>,
+    votes: HashMap<(Round, Digest), HashMap<usize, Signature>>,
+    timeouts: HashMap<Round, HashMap<usize, (Signature, Round)>>,
+    led: HashSet<(usize, Round)>,
+    voted: HashSet<(usize, Digest)>,
+    timed_out: HashSet<(usize, Round)>,
+    conns: HashMap<(usize, usize, u8), usize>,
+    max_round: Round,
+    frames: Vec<(usize, Vec<u8>)>,
+    batch_digests: Vec<Digest>,
+    counter: u64,
+    pub stats: BTreeMap<String, u64>,
+}
+
+fn sign(d: &Digest, s: &SecretKey) -> Signature {
+    Signature::new(d, s)
 }
 
 impl Adversary {
-    pub fn new(_sc: &Scenario, net: Net, _members: Members, _names: Vec<PublicKey>) -> Self {
-        Adversary { _net: net }
+    pub fn new(sc: &Scenario, net: Net, members: Members, names: Vec<PublicKey>) -> Self {
+        let mut secrets = HashMap::new();
+        for b in &sc.byz {
+            secrets.insert(*b, keypair(sc.seed, *b).1);
+        }
+        Adversary {
+            net,
+            cfg: sc.adv.clone(),
+            seed: mix(&[sc.seed, sc.adv.seed, 900]),
+            members,
+            names,
+            byz: sc.byz.clone(),
+            honest: (0..sc.n).filter(|i| !sc.byz.contains(i)).collect(),
+            secrets,
+            blocks: HashMap::new(),
+            qcs: BTreeMap::new(),
+            tcs: BTreeMap::new(),
+            votes: HashMap::new(),
+            timeouts: HashMap::new(),
+            led: HashSet::new(),
+            voted: HashSet::new(),
+            timed_out: HashSet::new(),
+            conns: HashMap::new(),
+            max_round: 0,
+            frames: Vec::new(),
+            batch_digests: Vec::new(),
+            counter: 0,
+            stats: BTreeMap::new(),
+        }
     }
-    pub fn on_tap(&mut self, _ev: &TapEvent) {}
-    pub fn on_tick(&mut self) {}
+
+    fn coin(&mut self, p: f64, tag: u64) -> bool {
+        self.counter += 1;
+        unit(&[self.seed, tag, self.counter]) < p
+    }
+
+    fn pick(&mut self, n: usize, tag: u64) -> usize {
+        self.counter += 1;
+        if n == 0 {
+            0
+        } else {
+            (mix(&[self.seed, tag, self.counter]) % n as u64) as usize
+        }
+    }
+
+    fn stat(&mut self, k: &str) {
+        *self.stats.entry(k.to_string()).or_insert(0) += 1;
+        self.net.count_fault(&format!("byz.{}", k));
+    }
+
+    fn send(&mut self, from: usize, to: usize, svc: u8, bytes: &[u8]) {
+        let key = (from, to, svc);
+        let conn = match self.conns.get(&key) {
+            Some(c) if self.net.conn_alive(*c) => Some(*c),
+            _ => match self.net.h_connect(from, to, svc) {
+                Ok(c) => {
+                    self.conns.insert(key, c);
+                    Some(c)
+                }
+                Err(_) => None,
+            },
+        };
+        if let Some(c) = conn {
+            let _ = self.net.h_send_frame(c, true, bytes);
+        }
+    }
+
+    fn send_cons(&mut self, from: usize, to: usize, m: &ConsensusMessage) {
+        let bytes = bincode::serialize(m).expect("serialize");
+        self.send(from, to, SVC_CONSENSUS, &bytes);
+    }
+
+    fn high_qc(&self) -> QC {
+        self.qcs.values().next_back().cloned().unwrap_or_else(QC::genesis)
+    }
+
+    fn learn_qc(&mut self, qc: &QC) {
+        if !ident::is_genesis_qc(qc) && !self.qcs.contains_key(&qc.round) && ident::check_qc(qc, &self.members).is_ok() {
+            self.qcs.insert(qc.round, qc.clone());
+        }
+    }
+
+    fn learn_tc(&mut self, tc: &TC) {
+        if !self.tcs.contains_key(&tc.round) && ident::check_tc(tc, &self.members).is_ok() {
+            self.tcs.insert(tc.round, tc.clone());
+        }
+    }
+
+    /// Try to assemble a QC for (round, hash) from the tapped votes plus the Byzantine ones.
+    fn try_qc(&mut self, round: Round, hash: &Digest) -> Option<QC> {
+        let mut have: Vec<(usize, Signature)> = self.votes.get(&(round, hash.clone())).map(|m| m.iter().map(|(a, s)| (*a, s.clone())).collect()).unwrap_or_default();
+        for b in self.byz.clone() {
+            if !have.iter().any(|(a, _)| *a == b) {
+                have.push((b, sign(&ident::vote_digest(hash, round), &self.secrets[&b])));
+            }
+        }
+        have.sort_by_key(|(a, _)| *a);
+        let stake: u64 = have.iter().map(|(a, _)| self.members.stakes[*a] as u64).sum();
+        if stake < self.members.quorum() {
+            return None;
+        }
+        Some(QC { hash: hash.clone(), round, votes: have.into_iter().map(|(a, s)| (self.names[a], s)).collect() })
+    }
+
+    /// Try to assemble a TC for `round` from tapped timeouts plus under-reporting Byzantine ones.
+    fn try_tc(&mut self, round: Round) -> Option<TC> {
+        if let Some(tc) = self.tcs.get(&round) {
+            return Some(tc.clone());
+        }
+        let mut have: Vec<(usize, Signature, Round)> = self.timeouts.get(&round).map(|m| m.iter().map(|(a, (s, h))| (*a, s.clone(), *h)).collect()).unwrap_or_default();
+        for b in self.byz.clone() {
+            if !have.iter().any(|(a, _, _)| *a == b) {
+                have.push((b, sign(&ident::timeout_digest(round, 0), &self.secrets[&b]), 0));
+            }
+        }
+        // Prefer the lowest reported QC rounds.
+        have.sort_by_key(|(a, _, h)| (*h, *a));
+        let mut acc = 0u64;
+        let mut chosen = Vec::new();
+        for (a, s, h) in have {
+            if acc >= self.members.quorum() {
+                break;
+            }
+            acc += self.members.stakes[a] as u64;
+            chosen.push((self.names[a], s, h));
+        }
+        if acc < self.members.quorum() {
+            return None;
+        }
+        Some(TC { round, votes: chosen })
+    }
+
+    fn mk_block(&self, author: usize, round: Round, qc: QC, tc: Option<TC>, payload: Vec<Digest>) -> Block {
+        let mut b = Block { qc, tc, author: self.names[author], round, payload, signature: Signature::default() };
+        b.signature = sign(&ident::block_digest(&b), &self.secrets[&author]);
+        b
+    }
+
+    /// A Byzantine authority leads round r.
+    fn lead(&mut self, b: usize, r: Round) {
+        if !self.led.insert((b, r)) {
+            return;
+        }
+        if self.coin(self.cfg.silent, 1) {
+            self.stat("silent-leader");
+            return;
+        }
+        // Candidate parents: the highest QC (needs round r - 1 or a TC), and older ones with a TC.
+        let mut variants: Vec<Block> = Vec::new();
+        let high = self.high_qc();
+        let tc_prev = if r > 1 { self.try_tc(r - 1) } else { None };
+        let mk = |this: &Self, qc: QC, payload: Vec<Digest>| -> Option<Block> {
+            if qc.round + 1 == r {
+                Some(this.mk_block(b, r, qc, None, payload))
+            } else {
+                tc_prev.clone().map(|tc| this.mk_block(b, r, qc, Some(tc), payload))
+            }
+        };
+        if let Some(x) = mk(self, high.clone(), vec![]) {
+            variants.push(x);
+        }
+        if self.coin(self.cfg.stale_qc, 2) {
+            // Extend an older certified block (a genuine TC makes it look legitimate).
+            let olds: Vec<QC> = self.qcs.values().rev().skip(1).take(4).cloned().collect();
+            if !olds.is_empty() {
+                let k = self.pick(olds.len(), 3);
+                if let Some(x) = mk(self, olds[k].clone(), vec![]) {
+                    variants.push(x);
+                    self.stat("stale-parent-proposal");
+                }
+            } else if let Some(x) = mk(self, QC::genesis(), vec![]) {
+                variants.push(x);
+                self.stat("stale-parent-proposal");
+            }
+        }
+        if self.coin(self.cfg.equivocate, 4) && !self.batch_digests.is_empty() {
+            // A sibling that differs in its payload (a batch honest nodes hold).
+            let k = self.pick(self.batch_digests.len(), 5);
+            let d = self.batch_digests[k].clone();
+            if let Some(x) = mk(self, high.clone(), vec![d]) {
+                variants.push(x);
+                self.stat("equivocating-proposal");
+            }
+        }
+        if variants.is_empty() {
+            self.stat("leader-without-certificate");
+            return;
+        }
+        // Distribute: each honest node gets one variant (or nothing).
+        let withhold = self.coin(self.cfg.withhold, 6);
+        for h in self.honest.clone() {
+            if withhold && self.coin(0.5, 7) {
+                self.stat("withheld-proposal");
+                continue;
+            }
+            let k = self.pick(variants.len(), 8);
+            let blk = variants[k].clone();
+            self.blocks.insert(ident::block_digest(&blk), blk.clone());
+            self.send_cons(b, h, &ConsensusMessage::Propose(blk));
+        }
+        self.stat("byzantine-proposal-round");
+        // Vote for all own variants.
+        for blk in variants {
+            self.cast_votes(&blk);
+        }
+    }
+
+    /// Every Byzantine authority votes for the block (possibly a second block of that round).
+    fn cast_votes(&mut self, blk: &Block) {
+        let d = ident::block_digest(blk);
+        let next = self.members.leader_index(blk.round + 1);
+        for b in self.byz.clone() {
+            if !self.voted.insert((b, d.clone())) {
+                continue;
+            }
+            let v = Vote { hash: d.clone(), round: blk.round, author: self.names[b], signature: sign(&ident::vote_digest(&d, blk.round), &self.secrets[&b]) };
+            self.votes.entry((blk.round, d.clone())).or_default().insert(b, v.signature.clone());
+            if !self.byz.contains(&next) {
+                self.send_cons(b, next, &ConsensusMessage::Vote(v));
+                self.stat("byzantine-vote");
+            }
+        }
+    }
+
+    fn under_reporting_timeouts(&mut self, round: Round) {
+        for b in self.byz.clone() {
+            if !self.timed_out.insert((b, round)) {
+                continue;
+            }
+            // Report genesis or an old QC instead of the highest one.
+            let olds: Vec<QC> = self.qcs.values().rev().skip(1).take(3).cloned().collect();
+            let high = if !olds.is_empty() && self.coin(0.5, 9) {
+                let k = self.pick(olds.len(), 10);
+                olds[k].clone()
+            } else {
+                QC::genesis()
+            };
+            let t = Timeout { signature: sign(&ident::timeout_digest(round, high.round), &self.secrets[&b]), high_qc: high, round, author: self.names[b] };
+            self.timeouts.entry(round).or_default().insert(b, (t.signature.clone(), t.high_qc.round));
+            for h in self.honest.clone() {
+                self.send_cons(b, h, &ConsensusMessage::Timeout(t.clone()));
+            }
+            self.stat("under-reporting-timeout");
+        }
+    }
+
+    pub fn on_tap(&mut self, ev: &TapEvent) {
+        let (phase, data) = match &ev.kind {
+            TapKind::Frame { phase, data, .. } => (*phase, data.clone()),
+            _ => return,
+        };
+        if !ev.to_listener {
+            return;
+        }
+        // Frames reaching a Byzantine listener: acknowledge (or not).
+        if phase == Phase::Delivered && self.byz.contains(&ev.listener) {
+            let ack = match ev.svc {
+                SVC_CONSENSUS => matches!(crate::obs::safe_deserialize::<ConsensusMessage>(&data), Some(ConsensusMessage::Propose(_))),
+                SVC_MEMPOOL => true,
+                _ => false,
+            };
+            if ack && self.coin(self.cfg.ack, 11) {
+                let _ = self.net.h_send_frame(ev.conn, false, b"Ack");
+            }
+        }
+        if phase != Phase::Written {
+            return;
+        }
+        // Only traffic of the real (honest) nodes is material for the adversary.
+        if !self.honest.contains(&ev.src()) {
+            return;
+        }
+        if ev.svc == SVC_MEMPOOL && !self.byz.contains(&ev.src()) {
+            if let Some(mempool::MempoolMessage::Batch(_)) = crate::obs::safe_deserialize::<mempool::MempoolMessage>(&data) {
+                let d = ident::bytes_digest(&data);
+                if self.batch_digests.len() < 64 && !self.batch_digests.contains(&d) {
+                    self.batch_digests.push(d);
+                }
+            }
+            return;
+        }
+        if ev.svc != SVC_CONSENSUS || self.byz.contains(&ev.src()) {
+            return;
+        }
+        let m = match crate::obs::safe_deserialize::<ConsensusMessage>(&data) {
+            Some(m) => m,
+            None => return,
+        };
+        if self.frames.len() < 400 {
+            self.frames.push((ev.dst(), data.to_vec()));
+        }
+        let mut round_seen = 0;
+        match &m {
+            ConsensusMessage::Propose(b) => {
+                round_seen = b.round;
+                let d = ident::block_digest(b);
+                let new = !self.blocks.contains_key(&d);
+                self.blocks.insert(d, b.clone());
+                self.learn_qc(&b.qc);
+                if let Some(tc) = &b.tc {
+                    self.learn_tc(tc);
+                }
+                if new && self.coin(self.cfg.vote_all, 12) {
+                    let blk = b.clone();
+                    self.cast_votes(&blk);
+                }
+            }
+            ConsensusMessage::Vote(v) => {
+                round_seen = v.round;
+                if let Some(a) = self.members.index(&v.author) {
+                    self.votes.entry((v.round, v.hash.clone())).or_default().insert(a, v.signature.clone());
+                }
+                // Assemble a QC ourselves when the tapped votes plus ours suffice.
+                let to_us = self.byz.contains(&ev.dst());
+                if !self.qcs.contains_key(&v.round) && (to_us || self.coin(self.cfg.forge_qc_from_tapped, 13)) {
+                    if let Some(qc) = self.try_qc(v.round, &v.hash) {
+                        self.qcs.insert(qc.round, qc);
+                        self.stat("qc-assembled-from-tapped-votes");
+                    }
+                }
+            }
+            ConsensusMessage::Timeout(t) => {
+                round_seen = t.round;
+                if let Some(a) = self.members.index(&t.author) {
+                    self.timeouts.entry(t.round).or_default().insert(a, (t.signature.clone(), t.high_qc.round));
+                }
+                self.learn_qc(&t.high_qc);
+                if self.coin(self.cfg.low_timeouts, 14) {
+                    self.under_reporting_timeouts(t.round);
+                }
+            }
+            ConsensusMessage::TC(tc) => {
+                round_seen = tc.round + 1;
+                self.learn_tc(tc);
+            }
+            ConsensusMessage::SyncRequest(d, origin) => {
+                // Serve blocks we authored (honest nodes ask the author first).
+                if self.byz.contains(&ev.dst()) {
+                    if let (Some(b), Some(o)) = (self.blocks.get(d).cloned(), self.members.index(origin)) {
+                        let from = ev.dst();
+                        self.send_cons(from, o, &ConsensusMessage::Propose(b));
+                    }
+                }
+            }
+        }
+        if round_seen > self.max_round && round_seen - self.max_round < 10_000 {
+            for r in self.max_round + 1..=round_seen {
+                let l = self.members.leader_index(r);
+                if self.byz.contains(&l) {
+                    self.lead(l, r);
+                }
+            }
+            self.max_round = round_seen;
+        }
+        // Leadership of the next round can also start as soon as a QC / TC for this round exists.
+        let nr = self.max_round + 1;
+        let l = self.members.leader_index(nr);
+        if self.byz.contains(&l) && !self.led.contains(&(l, nr)) && (self.qcs.contains_key(&(nr - 1)) || self.tcs.contains_key(&(nr - 1)) || self.try_tc(nr - 1).is_some()) {
+            self.lead(l, nr);
+        }
+    }
+
+    /// Periodic wake-up: replays of earlier frames to random honest nodes.
+    pub fn on_tick(&mut self) {
+        if self.frames.is_empty() || !self.coin(self.cfg.replay, 15) {
+            return;
+        }
+        let k = self.pick(self.frames.len(), 16);
+        let (_, bytes) = self.frames[k].clone();
+        let ti = self.pick(self.honest.len(), 17);
+        let to = self.honest[ti];
+        let fi = self.pick(self.byz.len(), 18);
+        let from = self.byz[fi];
+        self.send(from, to, SVC_CONSENSUS, &bytes);
+        self.stat("replay");
+    }
 }
